@@ -813,8 +813,15 @@ pub fn run(o: &DriveOpts, out: &mut dyn Write, tid: usize) -> Value {
         let labels: Vec<String> = labels.iter().take(o.n.max(1)).cloned().collect();
         // rounds of: a random tree g on handle 0, a random tree h (+ sometimes extras) on handle 1, merge, reads
         let tree = |rng: &mut StdRng, rec: &mut Recorder, w: &mut World, h: usize, size: usize, extras: usize, star: bool| -> (bool, Vec<usize>) {
-            let mut ok = rec.call(w, HCall { h, call: Call::New { n: o.n, cap: o.cap } });
-            let mut ids: Vec<usize> = (0..win).collect();
+            // the right graph now and then has ANOTHER capacity than the left one (twice as large, ids up to there; or just large
+            // enough for the ids in play): nothing says the operands of a merge are of one size
+            let (capx, idspace) = if h == 1 && rng.gen_bool(0.3) {
+                if rng.gen_bool(0.7) { (o.cap * 2, (win * 2).min(o.cap * 2)) } else { (win.max(2), win) }
+            } else {
+                (o.cap, win)
+            };
+            let mut ok = rec.call(w, HCall { h, call: Call::New { n: o.n, cap: capx } });
+            let mut ids: Vec<usize> = (0..idspace).collect();
             ids.shuffle(rng);
             if h == 0 && rng.gen_bool(0.5) && win >= 4 {
                 // history: a group that lived and was collected before the tree is built (its ids come back through next_id())
